@@ -174,7 +174,7 @@ def oracle_c06(sim) -> None:
             first_reply = min((t for t, _ in op.reply_rx), default=None)
             first_echo = min(op.echo_rx, default=None)
             order = "reply_before_echo" if (first_reply is not None and first_echo is not None
-                                            and first_reply < first_echo) else "in_order"
+                                            and first_reply <= first_echo + 1e-9) else "in_order"
             ctx.violate("C06", "not_recognised", f"{op.kind}:{order}", f"{op.frame}: echo and genuine reply were delivered "
                         f"({sorted(op.replies)}) but send failed: {op.outcome}")
         elif kind == "other":
